@@ -135,6 +135,24 @@ def check_value(bib, e, sp, inplace):
                     out.append((clause, {"value": text, "string": as_string, "key": key, "opts": o, "kept": x["kept"],
                                          "observed": got, "expected": want}))
                     continue
+                # the digit string became a Python int between removal and adding (what MonthIntMiddleware does): "integer
+                # values (digit strings or ints)" are one thing - the record of the removed enclosing still decides
+                if x["kept"] and v != ["I"] and e["s"]["v"] == ["D"] and not as_string:
+                    try:
+                        lib = mw_remove(bib, inplace).transform(mk_lib(bib, key, text, False))
+                        f = next(f for f in lib.entries[0].fields if f.key == key)
+                        if isinstance(f.value, str) and f.value.isascii() and f.value.isdigit() and str(int(f.value)) == f.value:
+                            f.value = int(f.value)
+                            got_i = val_of(mw_add(bib, o, inplace).transform(lib), key, False)
+                            if not same(str(got_i), want) and not same(got_i, want):
+                                out.append(("restore" if x["reuse"] else "integer_rule",
+                                            {"value": text, "string": False, "key": key, "opts": o, "history": "remove, value becomes an int, add",
+                                             "observed": got_i, "expected": want}))
+                                continue
+                    except Exception as ex:  # noqa
+                        out.append(("enclose_raised", {"value": text, "key": key, "opts": o, "history": "remove, value becomes an int, add",
+                                                      "exc": f"{type(ex).__name__}: {ex}"}))
+                        continue
                 # a second round on the SAME blocks: remove, add, remove, add gives what remove, add gave (whatever the
                 # first round left on the blocks)
                 if x["kept"] and not (bool(v) and v[-1] == "ESC" and sp["ESC"][-1] in '}"'):
